@@ -1,6 +1,7 @@
 package main
 
 import (
+	"encoding/json"
 	"flag"
 	"fmt"
 	"os"
@@ -27,6 +28,20 @@ func main() {
 		usage()
 	}
 	switch os.Args[1] {
+	case "sizes":
+		ids := []string{}
+		for id := range registry {
+			ids = append(ids, id)
+		}
+		sort.Strings(ids)
+		for _, id := range ids {
+			ch := registry[id]
+			q, t := -1, -1
+			if ch.NumCases != nil {
+				q, t = ch.NumCases("quick"), ch.NumCases("thorough")
+			}
+			fmt.Printf("%s quick=%d thorough=%d\n", id, q, t)
+		}
 	case "list":
 		ids := []string{}
 		for id := range registry {
@@ -49,9 +64,32 @@ func main() {
 		tier := fs.String("tier", "quick", "")
 		seed := fs.Int64("seed", envSeed(), "")
 		one := fs.Int("case", -1, "")
+		replay := fs.String("replay", "", "replay file written next to a VIOLATION line: re-runs the recorded case in-process")
 		fs.Parse(os.Args[3:])
 		if t := os.Getenv("VERIF_TIER"); t != "" && !isFlagSet(fs, "tier") {
 			*tier = t
+		}
+		if *replay != "" {
+			b, err := os.ReadFile(*replay)
+			if err != nil {
+				fmt.Fprintln(os.Stderr, err)
+				os.Exit(64)
+			}
+			var rf struct {
+				Seed      int64  `json:"seed"`
+				Tier      string `json:"tier"`
+				Violation struct {
+					Case      int    `json:"case"`
+					Signature string `json:"signature"`
+				} `json:"violation"`
+			}
+			if err := json.Unmarshal(b, &rf); err != nil {
+				fmt.Fprintln(os.Stderr, err)
+				os.Exit(64)
+			}
+			fmt.Printf("replaying case %d of %s (tier %s, seed %d); recorded signature: %s\n", rf.Violation.Case, ch.ID, rf.Tier, rf.Seed, rf.Violation.Signature)
+			*tier, *seed, *one = rf.Tier, rf.Seed, rf.Violation.Case
+			os.Setenv("VERIF_REPLAY", "1")
 		}
 		os.Exit(runCheck(ch, *tier, *seed, *one))
 	case "worker":
